@@ -49,6 +49,10 @@ type Prop struct {
 	MObs func(op string) bool
 	// Fixed cases that always run first (regressions / witnesses of repaired defects).
 	Fixed func(tier string) []Case
+	// SpecIndependent: the driver's `#spec` answers (and plain answers of property-level ops) come from a
+	// specification state that does not depend on the mechanism the model replays, so after a mechanism
+	// divergence the judge keeps looking for a property-level observable that differs from the specification.
+	SpecIndependent bool
 	// FeedImpl: trace validation. The driver receives `op ## impl-output` for every op, so the model can read
 	// which nondeterministic/background action the implementation actually took (and must re-derive everything
 	// it can: the answer is compared with the implementation's output as usual).
@@ -207,8 +211,10 @@ func judge(p *Prop, c Case, impl, model []string) verdict {
 		if v.kind == "" || v.kind == "known" {
 			v = verdict{kind: "corr", index: i, implObs: impl[i], model: m.model, spec: m.spec}
 		}
-		// after a mechanism divergence later lines are unreliable; stop at the first one
-		return v
+		if !p.SpecIndependent {
+			// after a mechanism divergence the model's later answers are unreliable; stop at the first one
+			return v
+		}
 	}
 	return v
 }
